@@ -234,7 +234,11 @@ class RegReplay:
 
     def ac(self, t):
         lb = sorted(self.live)
-        y = [self.lid(o) for o in self.ses.Worker.active_children()]
+        try:
+            y = [self.lid(o) for o in self.ses.Worker.active_children()]
+        except Exception as e:  # noqa - the call raised: it yielded nothing (an observation, judged like any other)
+            y = []
+            self.notes.append('active_children() raised %r' % (e,))
         la = sorted(self.live)
         self.reglens.append(self.ses.reglen())
         self.calls.append({'t': t, 'y': y, 'lb': lb, 'la': la, 'retained': self.ses.retained(), 'died': 0})
@@ -549,6 +553,97 @@ def race(job, ses, tmp):
             'restarted': [], 'inside': g['inside']}
 
 
+def fresh_thread(job, ses, tmp):
+    """active_children() / autoclose executed in a thread that was started AFTER thread workers have finished (such a
+    thread typically inherits the identity of a finished one: nothing about a dead worker may depend on who asks)."""
+    ThreadWorker = ses.cls[('thread', False)]
+    notes, calls, autos, flags, ws, live = [], [], [], {}, {}, []
+    foreign = {}
+    done = {'ok': False}
+
+    def lid(o):
+        for w, x in ws.items():
+            if x is o:
+                return w
+        return foreign.setdefault(id(o), 900 + len(foreign))
+
+    def mk(w):
+        ses.nflag += 1
+        flags[w] = os.path.join(tmp, 'tflag-%d-%d' % (os.getpid(), ses.nflag))
+        ws[w] = ThreadWorker(ses.targets.sleeper, args=[flags[w]], name='ft-%s-%d' % (job['id'], w))
+        live.append(w)
+
+    def observer():
+        try:
+            for rnd in range(2):
+                lb = sorted(live)
+                try:
+                    y = [lid(o) for o in ses.Worker.active_children()]
+                except Exception as e:  # noqa
+                    y = []
+                    notes.append('active_children() raised %r' % (e,))
+                calls.append({'t': 1, 'y': y, 'lb': lb, 'la': lb, 'retained': 0, 'died': 0})
+                if rnd == 0:
+                    raised = 'none'
+                    try:
+                        with ses.autoclose():
+                            pass
+                    except Exception as e:  # noqa
+                        raised = type(e).__name__
+                        notes.append('autoclose raised %r' % (e,))
+                    after = []
+                    for w in sorted(live):
+                        t0 = time.time()
+                        while _thread_of[w] is not None and _thread_of[w].is_alive() and time.time() - t0 < 3.0:
+                            time.sleep(0.002)
+                        if _thread_of[w] is not None and _thread_of[w].is_alive():      # the OS thread, not the worker's word
+                            after.append(w)
+                    autos.append({'after': after, 'raised': raised})
+                    for w in list(live):
+                        if w not in after:
+                            live.remove(w)
+            done['ok'] = True
+        except BaseException as e:  # noqa
+            notes.append('aborted: %r' % (e,))
+    _thread_of = {}
+
+    def body():
+        nlive, ndead = job.get('live', 1), job.get('dead', 2)
+        for w in range(1, nlive + 1):
+            mk(w)
+        for w in range(nlive + 1, nlive + ndead + 1):
+            mk(w)
+        for w in ws:
+            _thread_of[w] = _find_thread(tid=ws[w].tid)       # OS-level truth about each worker's thread
+        for w in range(nlive + 1, nlive + ndead + 1):        # these finish; their threads are gone when wait() returns
+            open(flags[w], 'w').close()
+            if not ws[w].wait(10):
+                notes.append('worker %d did not finish' % w)
+            live.remove(w)
+        th = threading.Thread(target=observer, name='fresh-observer', daemon=True)    # started after they have finished
+        th.start()
+        th.join(HIST_BOUND)
+        if th.is_alive():
+            notes.append('hang in the fresh observer thread')
+    bt = threading.Thread(target=body, name='ft-body', daemon=True)
+    bt.start()
+    bt.join(HIST_BOUND + 15)
+    for f in flags.values():
+        try:
+            open(f, 'w').close()
+        except OSError:
+            pass
+    for w, o in list(ws.items()):
+        th = _thread_of.get(w)
+        if th is not None:
+            th.join(3)
+        ses.dead_refs.append(weakref.ref(o))
+    ws.clear()
+    rec = {'id': str(job['id']), 'scn': {'n': job.get('live', 1) + job.get('dead', 2), 'kinds': {'*': 'thread'}, 'fresh_thread': 'T'},
+           'obs': {'calls': calls, 'autos': autos}}
+    return {'id': job['id'], 'rec': rec, 'notes': notes, 'finished': done['ok'], 'reglens': [ses.reglen()], 'restarted': []}
+
+
 def runner_main(jobfile, outfile):
     parent_watchdog()
     with open(jobfile) as f:
@@ -564,6 +659,8 @@ def runner_main(jobfile, outfile):
                 results.append(stress(j, ses))
             elif j.get('type') == 'race':
                 results.append(race(j, ses, tmp))
+            elif j.get('type') == 'freshthread':
+                results.append(fresh_thread(j, ses, tmp))
             else:
                 results.append(RegReplay(j, ses, tmp).run())
             if len(results) % 8 == 0:
@@ -753,15 +850,19 @@ def run(prop, tier, replay=None):
             for others in (0, 1, 2):
                 jobs.append({'id': 'R%d' % nrace, 'type': 'race', 'action': action, 'others': others, 'moment': 0.15 if quick else 0.3})
                 nrace += 1
+    for k in range(12 if quick else 60):
+        jobs.append({'id': 'F%d' % k, 'type': 'freshthread', 'live': 1 + k % 2, 'dead': 1 + k % 3})
     ev.cov['phase_s']['path_dumps'] = T.s()
     order = sorted(jobs, key=lambda j: (0 if j.get('long') or j.get('type') else 1, j['id']))
     results = run_jobs(order, 14, 'C19', 75 if quick else 1500, module='vf.drivers.registry')
     ev.cov['phase_s']['replays'] = T.s()
     byid = {r_['id']: r_ for r_ in results}
     records = [byid[j['id']]['rec'] for j in jobs if j['id'] in byid]
-    if len(records) < len(jobs) // 2:
-        raise MachineryError('%d of %d replays did not run' % (len(jobs) - len(records), len(jobs)))
+    if not records:
+        raise MachineryError('no replay ran at all')
     fails, rj = tlc.judge('RegistryJudge', records, name='judge', timeout=1500)
+    if not fails and len(records) < len(jobs) // 2:
+        raise MachineryError('%d of %d replays did not run and the ones that ran show no violation' % (len(jobs) - len(records), len(jobs)))
     ev.add_tlc('judge: C19 operators on %d real executions' % len(records), rj, role='judge')
     failing = {}
     for rid, clause in fails:
@@ -775,7 +876,9 @@ def run(prop, tier, replay=None):
         j = jb[rid]
         desc = 'history %s' % [s[:2] if s[0] != 'create' else s for s in j['h']][:14] if 'h' in j else \
             ('forced race: %s by a second thread while active_children() evaluates is_alive() (%d other live workers); %s'
-             % (j['action'], j['others'], res['notes'][-1:]) if j.get('type') == 'race' else 'two-caller stress run')
+             % (j['action'], j['others'], res['notes'][-1:]) if j.get('type') == 'race' else
+             'active_children()/autoclose in a thread started after %d thread worker(s) finished, %d alive; %s'
+             % (j['dead'], j['live'], res['notes'][:2]) if j.get('type') == 'freshthread' else 'two-caller stress run')
         first = next((c for c in res['rec']['obs']['calls'] if set(c['y']) != set(c['lb'])), None)
         if first is not None:
             first = {k: (v[:8] + ['... %d more' % (len(v) - 8)] if isinstance(v, list) and len(v) > 8 else v) for k, v in first.items()}
